@@ -55,11 +55,13 @@ StateOf(c, today) ==
       doy0 == Num(c, "doy", NA) m0 == Num(c, "month", NA) d0 == Num(c, "dom", NA)
       ww == Num(c, "week_w", NA) wu == Num(c, "week_u", NA) wv == Num(c, "week_v", NA)
       fromDoy == Known(yy) /\ Known(doy0)
-      doyOK   == fromDoy => doy0 <= (IF IsLeap(yy) THEN 366 ELSE 365) + 0
-      md == IF fromDoy /\ doy0 <= 366 THEN LET n == DaysBeforeYear(yy) + doy0 IN <<CalInfo(n).month, CalInfo(n).dom>> ELSE <<m0, d0>>
+      doyOK   == doy0 <= (IF IsLeap(yy) THEN 366 ELSE 365)
+      md == IF fromDoy /\ doyOK THEN LET n == DaysBeforeYear(yy) + doy0 IN <<CalInfo(n).month, CalInfo(n).dom>> ELSE <<m0, d0>>
       hasDate == Known(yy) /\ Known(md[1]) /\ Known(md[2])
-      nothing == \A x \in {yy, yg, m0, d0, doy0, ww, wu, wv} : ~Known(x)
-      cal == IF hasDate THEN (IF fromDoy \/ ValidDate(yy, md[1], md[2]) THEN CalInfo(IF fromDoy THEN DaysBeforeYear(yy) + doy0 ELSE Ordinal(yy, md[1], md[2])) ELSE Bad("impossible-date"))
+      \* a text that shows no calendar part at all takes today's calendar
+      nothing == \A x \in {yy, yg, m0, d0, doy0, ww, wu, wv} : x = NA
+      cal == IF fromDoy /\ ~doyOK THEN Bad("impossible-date")
+             ELSE IF hasDate THEN (IF ValidDate(yy, md[1], md[2]) THEN CalInfo(Ordinal(yy, md[1], md[2])) ELSE Bad("impossible-date"))
              ELSE IF nothing THEN CalInfo(today)
              ELSE [year_y |-> yy, year_g |-> yg, quarter |-> NA, month |-> md[1], dom |-> md[2], doy |-> doy0, week_w |-> ww, week_u |-> wu, week_v |-> wv]
       q0 == Num(c, "quarter", NA)
